@@ -26,6 +26,12 @@ impl It<'_> {
             It::De(i) => i.next_back(),
         }
     }
+    fn nth(&mut self, k: usize) -> Option<f64> {
+        match self {
+            It::Fwd(i) => i.nth(k),
+            It::De(i) => i.nth(k),
+        }
+    }
 }
 
 /// the real iterator for a specification adaptor instance
@@ -103,6 +109,36 @@ pub fn replay(args: &Args) {
             }
             let (mut kf, mut kb) = (0usize, 0usize);
             for (step, s) in sched.iter().enumerate() {
+                if let Some(kk) = s.strip_prefix('N') {
+                    // nth(k): skips k items, yields the next; drains the iterator when it overshoots
+                    let k: usize = kk.parse().map_err(|_| format!("harness: bad schedule step {s}"))?;
+                    let rem = total - kf - kb;
+                    let got = it.nth(k);
+                    if k < rem {
+                        let Some(x) = got else {
+                            return Err(format!("step {step} ({s}): nth({k}) returned nothing with {rem} item(s) remaining"));
+                        };
+                        if !items.is_empty() {
+                            let want = items[kf + k];
+                            let w = if want == NULL { f64::NAN } else { want as f64 };
+                            if !(x == w || (x.is_nan() && w.is_nan())) {
+                                return Err(format!("step {step} ({s}): nth({k}) yielded {x}, want {w}"));
+                            }
+                        }
+                        kf += k + 1;
+                    } else {
+                        if got.is_some() {
+                            return Err(format!("step {step} ({s}): nth({k}) returned an item although only {rem} remained"));
+                        }
+                        kf += rem;
+                    }
+                    let rem = total - kf - kb;
+                    let h = it.hint();
+                    if h != (rem, Some(rem)) {
+                        return Err(format!("after {s} ({} item(s) consumed) the size hint is {h:?} but {rem} item(s) remain", kf + kb));
+                    }
+                    continue;
+                }
                 let got = if s == "F" { it.next() } else { it.next_back() };
                 let Some(x) = got else {
                     return Err(format!("step {step} ({s}): iterator ended after {} of {total} items", kf + kb));
